@@ -11,7 +11,7 @@ const uint8_t *um_one_stub(UnmarshalState *st, const uint8_t *data, Janet *out, 
 const uint8_t *um_def_stub(UnmarshalState *st, const uint8_t *data, JanetFuncDef **out, int flags) { return data; }
 const uint8_t *u32s_stub(UnmarshalState *st, const uint8_t *data, uint32_t *into, int32_t n) { __CPROVER_assert(n >= 0, "C10 funcdef image: element count handed to the word reader is not negative"); return data; }
 static void *alloc_contract(size_t size) {
-  __CPROVER_assert(size <= (size_t) 0x7fffffff * 16, "C10 funcdef image: every allocation size is that of a non-negative 31-bit element count (no negative count converted to size_t)");
+  __CPROVER_assert(size <= (size_t) 0x7fffffff * 32, "C10 funcdef image: every allocation size is that of a non-negative 31-bit element count (no negative count converted to size_t)");
   static char block[64]; return block;
 }
 void *malloc_stub(size_t size) { return alloc_contract(size); }
